@@ -205,6 +205,15 @@ def checkFrame (e : Expr) (c : Ctx) (real inner : Invoked) : List AFail :=
     f1 ++ f2 ++ f3 ++ f4
   | _ => []
 
+partial def hasMultiParts : Expr → Bool
+  | .multiParts .. => true
+  | .filter _ e | .filterArgs e | .filterParts e | .retain _ e | .pfx _ e | .sfx _ e | .style _ e | .tag _ e
+  | .usage _ e | .nospace _ e | .suppress _ e | .unless _ e | .shift _ e | .list _ e | .uniqueList _ e
+  | .multiPartsN _ _ e | .withCtx _ e => hasMultiParts e
+  | .batch es => es.any hasMultiParts
+  | .cond _ a b => hasMultiParts a || hasMultiParts b
+  | _ => false
+
 def runInvoke (inp out : Json) : Json :=
   let e := parseExpr #[] (jget inp "expr")
   let c := parseCtx (jget inp "ctx")
@@ -217,11 +226,19 @@ def runInvoke (inp out : Json) : Json :=
     | none => [{ prop := "C18", code := "panic:" ++ exprKind e, detail := jstr (jget out "panic") },
                { prop := "C11", code := "panic:" ++ exprKind e, detail := jstr (jget out "panic") }]
     | some r =>
-      match inner with
+      let law : List AFail :=
+        match e, (if (jget out "pfxInner").isNull then none else parseResult (jget out "pfxInner")) with
+        | .pfx p _, some pi =>
+          if r.1 == pi.1 && canonValues r.2 == canonValues (pi.2.map (fun v => { v with value := p ++ v.value })) then []
+          else [{ prop := "C12", code := "prefix_law", detail := s!"typed {String.ofList c.value} prefix {String.ofList p}: got {showInvoked r}, completion of the rest is {showInvoked pi}" }]
+        | _, _ => []
+      law ++ (match inner with
       | some i => checkFrame e c r i
-      | none => []
+      | none => [])
   Json.mkObj [("same", Json.bool same),
               ("diff", Json.str (if same then "" else s!"model {showInvoked model} real {match real with | some r => showInvoked r | none => "PANIC " ++ jstr (jget out "panic")}")),
+              ("aspects", Json.mkObj [("C11", Json.bool (same || !hasMultiParts e)),
+                                      ("C12", Json.bool (same || (match e with | .multiParts .. => true | _ => false)))]),
               ("fails", Json.arr (fails.map afailJson).toArray),
               ("feat", Json.mkObj [("top", Json.str (exprKind e)), ("nvalues", Json.num (match real with | some r => r.2.length | none => 0))])]
 
@@ -259,7 +276,23 @@ def runHistory (inp out : Json) : Json := Id.run do
             | _, _ => false
           if !eq && fails.isEmpty then
             fails := fails ++ [{ prop := "C08", code := "not_repeatable", detail := s!"steps {i} and {j} invoke the same action with the same Context and differ" }]
+  -- C08 oracle: every step equals what the same expression, built from scratch, yields for that Context
+  let freshs := (jarr out "fresh").toList
+  let mut kk := 0
+  for (r, f) in results.zip freshs do
+    let rr := parseResult r
+    let ff := parseResult f
+    let eq := match rr, ff with
+      | some a, some b => a.1 == b.1 && canonValues a.2 == canonValues b.2
+      | none, none => true
+      | _, _ => false
+    if !eq && fails.length < 3 then
+      fails := fails ++ [{ prop := "C08", code := "trace_of_earlier_invocation", detail := s!"step {kk}: reused value yields {match rr with | some x => showInvoked x | none => "PANIC"} fresh value yields {match ff with | some x => showInvoked x | none => "PANIC"}" }]
+    kk := kk + 1
+  if !(jarr out "ctxChanged").isEmpty then
+    fails := fails ++ [{ prop := "C08", code := "caller_context_changed", detail := (jget out "ctxChanged").compress }]
   return Json.mkObj [("same", Json.bool diffs.isEmpty), ("diff", Json.str (String.intercalate " | " (diffs.take 3))),
+                     ("aspects", Json.mkObj [("C08", Json.bool true)]),
                      ("fails", Json.arr (fails.map afailJson).toArray),
                      ("feat", Json.mkObj [("steps", Json.num steps.length), ("table", Json.num table.size)])]
 
